@@ -52,7 +52,7 @@ def sweep(spec):
         vname = '' if variant is None else '[%s]' % json.dumps(variant, default=str).replace('"', '')
         per = out['per'].setdefault(h.name, {'runs': 0, 'checks': 0, 'aborted': 0})
         nfail = 0
-        for seed in range(spec['seeds']):
+        for seed in range(h.seeds or spec['seeds']):
             failures, nruns, nchecks, status = concrete.run_concrete(h.fn, variant, {}, seed=seed, max_runs=3000)
             out['runs'] += nruns
             out['checks'] += nchecks
